@@ -141,3 +141,52 @@ Proof.
   destruct TO as (TN & HF).
   eapply concat_correct; [apply raws_ok; [exact F|split; assumption]|apply fulls_of; assumption|exact EC|exact H].
 Qed.
+
+(* ------------------------------------------------------------------ parts of another size (finding C19-F5) *)
+Lemma filter_Forall {A} (P : A -> Prop) (g : A -> bool) l : Forall P l -> Forall P (filter g l).
+Proof.
+  induction 1 as [|a l Ha _ IH]; cbn; [constructor|]. destruct (g a); [constructor; assumption|assumption].
+Qed.
+
+(* h5 parts (lenient indexers): whenever the concatenated indexer answers, the answer is the index applied to the glued
+   stored arrays of the parts of the selected window / subarray under the selection of the whole - FULL strength *)
+Theorem index_sized_lenient : forall tail tailkeep dt parts ix out,
+  Forall (fun p => dpart_ok (sp_part p)) parts -> tail_ok tail tailkeep ->
+  ds_getitem_sized false tail tailkeep dt parts ix = Ok out ->
+  spec_ds_sized tail tailkeep dt parts ix = Ok out /\
+  (forall p, In p parts -> fits tail p = false -> has_dump p = false).
+Proof.
+  intros tail tailkeep dt parts ix out F T H. unfold ds_getitem_sized in H. cbn [andb] in H.
+  destruct (existsb (fun p => negb (fits tail p) && has_dump p) parts) eqn:E; [discriminate|]. split.
+  - unfold spec_ds_sized. apply index_correct; [|exact T|exact H].
+    apply Forall_map. apply filter_Forall. exact F.
+  - intros p Ip Np. destruct (has_dump p) eqn:D; [|reflexivity]. exfalso.
+    assert (existsb (fun p => negb (fits tail p) && has_dump p) parts = true).
+    { apply existsb_exists. exists p. split; [exact Ip|]. rewrite Np, D. reflexivity. }
+    congruence.
+Qed.
+
+(* v4 parts (DaskLazyIndexer): the same under the guard "every part has the size of the selected window / subarray" *)
+Theorem index_sized_partial : forall strict tail tailkeep dt parts ix out,
+  Forall (fun p => dpart_ok (sp_part p)) parts -> tail_ok tail tailkeep ->
+  forallb (fits tail) parts = true ->
+  ds_getitem_sized strict tail tailkeep dt parts ix = Ok out ->
+  spec_ds_sized tail tailkeep dt parts ix = Ok out.
+Proof.
+  intros strict tail tailkeep dt parts ix out F T G H.
+  assert (X : ds_getitem_sized false tail tailkeep dt parts ix = Ok out).
+  { unfold ds_getitem_sized in *. rewrite G in H. cbn [negb] in H. rewrite andb_false_r in H. exact H. }
+  exact (proj1 (index_sized_lenient tail tailkeep dt parts ix out F T X)).
+Qed.
+
+(* with parts of one size the sized model IS the model of C19_index *)
+Lemma sized_same_size : forall strict tail tailkeep dt parts ix, forallb (fits tail) parts = true ->
+  ds_getitem_sized strict tail tailkeep dt parts ix = ds_getitem tail tailkeep dt (map sp_part parts) ix.
+Proof.
+  intros strict tail tailkeep dt parts ix G. unfold ds_getitem_sized. rewrite G. cbn [negb]. rewrite andb_false_r.
+  assert (E : existsb (fun p => negb (fits tail p) && has_dump p) parts = false).
+  { apply not_true_is_false. intro X. apply existsb_exists in X. destruct X as (p & Ip & Hp).
+    rewrite forallb_forall in G. rewrite (G p Ip) in Hp. discriminate. }
+  rewrite E. f_equal. f_equal. clear E. induction parts as [|p r IH]; [reflexivity|].
+  cbn [forallb] in G. apply andb_prop in G. destruct G as (G1 & G2). cbn [filter]. rewrite G1. f_equal. apply IH. exact G2.
+Qed.
